@@ -13,7 +13,6 @@ EXTENDS Approx
 (* does not fit in 32 bits is recorded as NaR = <<0,0>> and can never equal an expected value.    *)
 (* dv is a sequence of <<u, d(u)>>.  SamplesCover: the sample set contains every point the        *)
 (* complete function-equality test needs (knots + deg+1 interior points per span).               *)
-NaR == <<0, 0>>
 ObsPts(dv) == {dv[i][1] : i \in DOMAIN dv}
 Obs(dv, u) == (CHOOSE i \in DOMAIN dv : dv[i][1] = u)
 ObsVal(dv, u) == dv[Obs(dv, u)][2]
@@ -36,6 +35,49 @@ Width(U) == Sub(Umax(U), Umin(U))
 SmallSeq(s, bound) == \A i \in DOMAIN s : Abs(s[i][1]) <= bound /\ s[i][2] <= bound
 SmallCurve(c, bound) == SmallSeq(c.U, bound) /\ SmallSeq(c.P, bound) /\ SmallSeq(c.W, bound)
 
+(* ---- accepted approximations: a rigorous LOWER bound of the squared L2 deviation -------------------*)
+(* On a span of length h the error e = c - d is N/(w_c w_d) with N a polynomial of degree <= D          *)
+(* (D = max degree for polynomial curves, the sum of the degrees for rational ones) and, weights being  *)
+(* positive, w <= max W.  Nikolskii's inequality  max|N| <= (D+1)/sqrt(h) ||N||_2  gives                 *)
+(*     integral over the span of e^2  >=  h e(u)^2 rho(u)^2 / (D+1)^2 ,                                  *)
+(*     rho(u) = w_c(u) w_d(u) / (max W_c max W_d)   (1 for polynomial curves)                            *)
+(* for EVERY point u of the span, in particular the recorded sample points.  If that already exceeds    *)
+(* the bound 2 tol max(1, width) the accepted result is a violation ("exceeds"); otherwise the exact    *)
+(* integral decides when everything is polynomial and small, else the verdict is "within"/"unknown".    *)
+RECURSIVE MaxSeq(_, _)
+MaxSeq(sq, i) == IF i = Len(sq) THEN sq[i] ELSE RMax(sq[i], MaxSeq(sq, i + 1))
+SpanLen(ks, u) ==
+  LET i == CHOOSE k \in 1..(Len(ks) - 1) : Le(ks[k], u) /\ Le(u, ks[k + 1]) IN Sub(ks[i + 1], ks[i])
+ExceedsTol(lb, tn, td, width) ==              \* lb > 2 (tn/td) max(1,width) ?  "yes" / "no" / "unknown"
+  LET L == IF Lt(width, One) THEN One ELSE width IN
+  IF IsZero(lb) THEN "no"
+  ELSE IF lb[2] <= 30000 /\ Abs(lb[1]) <= 30000 /\ L[1] <= 1000 /\ L[2] <= 1000 /\ td <= 1000
+  THEN (IF Lt(Mul(Q(2 * tn, td), L), lb) THEN "yes" ELSE "no")
+  ELSE IF tn = 1 /\ td > 1000 /\ lb[2] <= 20000 /\ L[1] <= 50 /\ L[2] = 1
+  THEN (IF 2 * L[1] * lb[2] < td THEN "yes" ELSE "unknown")   \* lb = n/d >= 1/d > 2 L / td
+  ELSE "unknown"
+DeviationVerdict(c, d, dv, tol) ==
+  LET ks   == CommonBreaks(c.U, d.U)
+      rat  == c.W # <<>> \/ d.W # <<>>
+      D    == IF rat THEN Deg(c.U) + Deg(d.U) ELSE (IF Deg(c.U) > Deg(d.U) THEN Deg(c.U) ELSE Deg(d.U))
+      okW  == SmallSeq(d.W, 10000) /\ \A i \in DOMAIN d.W : Sign(d.W[i]) > 0
+      pts  == {u \in ObsPts(dv) : u \notin KnotSet(c.U) \cup KnotSet(d.U) /\ ObsVal(dv, u) # NaR}
+      rho(u) == IF ~rat THEN One
+                ELSE Mul(Div(IF c.W = <<>> THEN One ELSE Eval(Poly(c.U, c.W), u),
+                             IF c.W = <<>> THEN One ELSE MaxSeq(c.W, 1)),
+                         Div(IF d.W = <<>> THEN One ELSE Eval(Poly(d.U, d.W), u),
+                             IF d.W = <<>> THEN One ELSE MaxSeq(d.W, 1)))
+      lb(u) == LET e == Sub(ObsVal(dv, u), Eval(c, u)) r == rho(u) IN
+               Div(Mul(SpanLen(ks, u), Mul(Mul(e, e), Mul(r, r))), R((D + 1) * (D + 1)))
+      small(u) == LET v == ObsVal(dv, u) IN Abs(v[1]) <= 3000 /\ v[2] <= 3000
+      verdicts == {ExceedsTol(lb(u), TolNum(tol), TolDen(tol), Width(c.U)) : u \in {x \in pts : small(x)}}
+  IN IF rat /\ ~okW THEN "unknown"
+     ELSE IF "yes" \in verdicts THEN "exceeds"
+     ELSE IF ~rat /\ SmallCurve(d, 300) /\ WithinTol(L2Sq(c, d), TolNum(tol), TolDen(tol), Width(c.U)) = "no" THEN "exceeds"
+     ELSE IF ~rat /\ SmallCurve(d, 300) /\ WithinTol(L2Sq(c, d), TolNum(tol), TolDen(tol), Width(c.U)) = "yes" THEN "within"
+     ELSE IF pts = {} \/ "unknown" \in verdicts THEN "unknown"
+     ELSE "within-as-far-as-decided"
+
 (* ---- generic: coarsening a curve c to the target vector V ----------------*)
 (* cls: observed outcome class, d: observed curve afterwards                 *)
 CoarsenClauses(c, V, tol, cls, d, dv) ==
@@ -51,11 +93,11 @@ CoarsenClauses(c, V, tol, cls, d, dv) ==
             <<"exact_case_same_function", (exact /\ d.U = V /\ ConsistentCurve(d)) =>
                   ObservedEquals(c, dv, CommonBreaks(c.U, V), Deg(c.U) + Deg(V))>>,
             <<"deviation_within_tolerance",
-                (~exact /\ tol[1] # "none" /\ c.W = <<>> /\ d.W = <<>> /\ d.U = V /\ ConsistentCurve(d)
-                   /\ SmallCurve(d, 300))
-                   => WithinTol(L2Sq(c, d), TolNum(tol), TolDen(tol), Width(V)) # "no">>,
+                (~exact /\ tol[1] # "none" /\ d.U = V /\ ConsistentCurve(d))
+                   => DeviationVerdict(c, d, dv, tol) # "exceeds">>,
             <<"?deviation_within_tolerance",
-                ~(~exact /\ tol[1] # "none" /\ cls = "ok" /\ ~(c.W = <<>> /\ d.W = <<>> /\ SmallCurve(d, 300)))>>,
+                (~exact /\ tol[1] # "none" /\ d.U = V /\ ConsistentCurve(d))
+                   => DeviationVerdict(c, d, dv, tol) # "unknown">>,
             <<"keeps_values_at_remaining_knots",
                 (tol[1] = "none" /\ Deg(V) >= 1 /\ d.U = V /\ ConsistentCurve(d))
                    => \A x \in KnotSet(V) : x \in ObsPts(dv) /\ ObsVal(dv, x) = Eval(c, x)>>})
